@@ -42,6 +42,7 @@ RULE = (
     "enumeration of the reduced PRNG domains 2^k and a fresh-interpreter PYTHONHASHSEED comparison are executed. Non-trivial gen run = "
     ">=1 accepted and >=1 rejected neighbour; non-trivial prng run = >=1 rejected raw output followed by a re-draw; distinct = distinct "
     "event-log SHA-256"
+    '; fault injection: in 24% of the deterministic gen runs the second execution is preceded, in the same process, by a generation whose solver callback raises at its k-th call or by a generate_problem call that is rejected for its arguments; rejected PRNG calls (bad range, too wide, empty choice) precede every second enumeration; 12% of the tuple/list patterns hold the same builder object at two positions, 30% of the shared-pattern runs walk the kept (initial, generator) pair twice more, 30% of the start grids with the adjacency option hold touching clues, 20% of the segmentation start values have holes'
 )
 STATE_MEASURE = "distinct problem digests handed to the solver callback"
 COMPONENTS = {
